@@ -115,3 +115,44 @@ fn c19_acquire_after_wakeups_bounded() {
         kani::cover!(WAITS == 2, "cover.spurious_wakeup_then_permit");
     }
 }
+
+/// Interference model: whenever the mutex is taken, other threads may have changed the counter arbitrarily since it was
+/// last released (they hold the lock in between). An acquire that checks and takes the permit under ONE lock is immune;
+/// one that releases the lock between the check and the decrement is not.
+static mut LOCKS_TAKEN: u32 = 0;
+
+fn stub_lock_with_interference<T>(m: &std::sync::Mutex<T>) -> LockResult<MutexGuard<'_, T>> {
+    let mut g = match m.try_lock() {
+        Ok(g) => g,
+        Err(_) => {
+            kani::assume(false);
+            unreachable!()
+        }
+    };
+    unsafe {
+        LOCKS_TAKEN += 1;
+        let v: isize = kani::any();
+        *(&mut *g as *mut T as *mut isize) = v;
+    }
+    Ok(g)
+}
+
+/// Bounded stand-in [at most 2 wake-ups, counter rewritten by other threads at every lock acquisition]: after acquire
+/// returns, the counter it left behind is not negative, i.e. the permit it took existed when it was taken.
+#[kani::proof]
+#[kani::stub(std::sync::Condvar::notify_one, stub_notify_one)]
+#[kani::stub(std::sync::Condvar::wait, stub_wait)]
+#[kani::stub(std::sync::Mutex::lock, stub_lock_with_interference)]
+#[kani::unwind(5)]
+fn c19_acquire_under_interference_bounded() {
+    unsafe {
+        WAITS = 0;
+        LOCKS_TAKEN = 0;
+    }
+    let s = Semaphore::new(0);
+    s.acquire();
+    // read the counter without going through the interfering lock stub
+    let after = *s.lock.try_lock().unwrap();
+    assert!(after >= 0, "C19.acquire.check_and_take_are_one_critical_section");
+    kani::cover!(unsafe { WAITS } >= 1, "cover.waited");
+}
